@@ -62,6 +62,9 @@ def records(rnd, thorough):
     for n in (1, 5, 9):
         vals = np.array([rnd.randint(0, 7) for _ in range(n)], dtype=np.uint8)
         rec('mv_str', lambda vals=vals: dict(got=[list(str(logic.mv_str(vals)))]), vals=vals.astype(int).tolist(), S=len(vals), P=1)
+    for v in range(8):       # a single value (Python int, numpy scalar, 0-dimensional array) renders as its one character
+        for x in (int(v), np.uint8(v), np.array(v, dtype=np.uint8)):
+            rec('mv_str', lambda x=x: dict(got=[list(str(logic.mv_str(x)))]), vals=[v], S=1, P=1)
     # mv_to_bp / bp_to_mv: all S <= 3 x P <= 17, optional batch, 1-D
     for A in (0, 2):
         for S in (1, 2, 3):
